@@ -417,7 +417,32 @@ func (g *gctx) malformV2(doc map[string]any) string {
 func (g *gctx) malformV1(doc map[string]any) string {
 	r := g.r
 	def, _ := doc["default_config"].(map[string]any)
-	switch r.Intn(9) {
+	switch r.Intn(11) {
+	case 9:
+		// a second spelling of a key that is present (upper case, or without 0x)
+		pcs, _ := doc["proposer_config"].(map[string]any)
+		if pcs == nil {
+			pcs = map[string]any{}
+			doc["proposer_config"] = pcs
+		}
+		k := g.keys[0]
+		if _, ok := pcs[k]; !ok {
+			pcs[k] = g.genProposer1()
+		}
+		alt := "0x" + strings.ToUpper(k[2:])
+		if alt == k || r.Bool() {
+			alt = k[2:]
+		}
+		pcs[alt] = g.genProposer1()
+		return "v1-duplicate-key"
+	case 10:
+		pcs, _ := doc["proposer_config"].(map[string]any)
+		if pcs == nil {
+			pcs = map[string]any{}
+			doc["proposer_config"] = pcs
+		}
+		pcs[[]string{"0x" + strings.Repeat("ab", 47), "0xzz" + strings.Repeat("ab", 47), "Wallet 1/Account 1"}[r.Intn(3)]] = g.genProposer1()
+		return "v1-key-invalid"
 	case 8:
 		doc["version"] = []any{1, 3, -1, "0", 2, 1}[r.Intn(6)]
 		return "v1-version"
